@@ -428,6 +428,9 @@ class C14(object):
                         if rr.random() < 0.6:
                             sec.EquationBlock[v].Description = rr.choice(HOSTILE)
                 sec.AddVariable('XTRA', rr.choice(HOSTILE) if hostile else 'extra', '2.0')
+                # the one-string forms of the API: 'name # text' (a bare declaration) and 'name = rhs # text'
+                sec.AddVariableFromEquation('DECL_ONLY # ' + (rr.choice(HOSTILE) if hostile else 'a bare declaration'))
+                sec.AddVariableFromEquation('WITH_RHS = 1.5*XTRA # ' + (rr.choice(HOSTILE) if hostile else 'a plain text'))
                 # a WIDE right-hand side (> 80 characters once the full names are substituted) whose description
                 # carries the marker word
                 sec.AddVariable('WIDE', ('these EXOGENOUS looking words: exogenous variables follow (0) (k-1)' if hostile
